@@ -5,10 +5,22 @@
    method that writes, writes only its receiver.  (compiler half) the name the compiler gives
    a tensor spells its active ranks.  NOT a theorem (hence _partial): that in whole emitted
    programs setRankIds receivers and populated fibers are never reachable from an input
-   variable (stage-2 provenance checker); that half is the kernel-evaluated post-condition on
-   the final state of every execution (tools/props/c07.py). *)
+   variable - on the CONCRETE interpreter; that half is the kernel-evaluated post-condition on
+   the final state of every execution (tools/props/c07.py).
+   (static half, the C07_rankty theorems) On the abstract rank-id semantics of emitted programs
+   (Model/RankTy.v: tensor objects = location, rank ids, provenance; all paths - a loop runs
+   zero or more times, an `if` takes either branch) the checker `rankty_ok`, which
+   tools/props/c07.py evaluates in the kernel on every emitted program, is SOUND: no
+   execution renames a user-supplied tensor object in place, populates or updates
+   user-supplied data or leaves the modelled subset, and every terminating execution ends
+   with every <Name>_<Ranks> variable holding a tensor whose rank ids spell <Ranks> (exactly
+   the declared-or-rank-order list for inputs and results), every input and result variable
+   bound, every user-supplied object still carrying its original rank ids.  The abstract
+   semantics itself is trusted (tied to Model/Interp.v by comparing its prediction with every
+   executed case). *)
 From Coq Require Import String List FMapPositive.
 Require Import TV.Model.Py TV.Model.Rt TV.Model.Interp TV.Model.TensorSM TV.Proofs.RtFrame TV.Proofs.TensorSMProofs.
+Require TV.Model.RankTy TV.Proofs.RankTyProofs.
 Import ListNotations.
 
 Theorem C07_fresh_ops_frame_partial : forall tv m args kw st v st',
@@ -24,3 +36,36 @@ Theorem C07_tensor_name_spells : forall t,
   exists suffix, tensor_name t = (t_name t ++ "_" ++ String.concat "" (active t) ++ suffix)%string /\
                  (suffix = ""%string \/ suffix = "_flat"%string).
 Proof. exact tensor_name_spells. Qed.
+
+(* ---- static half: the certified rank-id checker (Model/RankTy.v, Proofs/RankTyProofs.v) ---- *)
+
+(* the verdict the harness evaluates: for every program, any inputs table / names table *)
+Theorem C07_rankty_sound : forall (c : RankTy.rctx) (p : program), RankTy.rankty_ok c p = true ->
+  (forall w, ~ RankTy.sem_block (RankTy.init c) p (RankTy.OBad w)) /\
+  (forall s', RankTy.sem_block (RankTy.init c) p (RankTy.OFine s') -> RankTy.post c s').
+Proof. exact RankTyProofs.rankty_sound. Qed.
+
+(* the analysis itself, from ANY abstract state C and any state S it describes: unbounded in the program and in
+   the number of loop iterations *)
+Theorem C07_rankty_chk_sound : forall ss C C', RankTy.chk_block C ss = RankTy.ROk C' ->
+  forall S, RankTyProofs.le S C ->
+  (forall w, ~ RankTy.sem_block S ss (RankTy.OBad w)) /\
+  (forall S', RankTy.sem_block S ss (RankTy.OFine S') -> RankTyProofs.le S' C').
+Proof. exact RankTyProofs.chk_block_sound. Qed.
+
+(* the only trusted comparison of abstract states is the decision procedure leb (join candidates are not) *)
+Theorem C07_rankty_leb_sound : forall A B, RankTy.leb A B = true -> RankTyProofs.le A B.
+Proof. exact RankTyProofs.leb_sound. Qed.
+
+(* whatever the checker says: on a path that does not go bad, a user-supplied tensor object keeps its rank ids *)
+Theorem C07_rankty_user_objects_kept : forall s ss s', RankTy.sem_block s ss (RankTy.OFine s') -> RankTyProofs.hwf s ->
+  forall l o, RankTy.PM.find l (RankTy.heap s) = Some o -> RankTy.t_oprov o = RankTy.User ->
+  RankTy.PM.find l (RankTy.heap s') = Some o.
+Proof. exact RankTyProofs.sem_frame. Qed.
+
+(* completeness on straight-line code (headers, footers): a rejection there IS a bad execution *)
+Theorem C07_rankty_straight_line_complete : forall ss c w,
+  forallb RankTy.is_simple ss = true -> RankTy.chk_block c ss = RankTy.RBad w -> RankTy.sem_block c ss (RankTy.OBad w).
+Proof. exact RankTyProofs.straight_complete. Qed.
+(* NOT proved (hence no _complete theorem for whole programs): at an `if` / a loop the checker may reject for lack
+   of a join / an invariant in its domain; such rejections are counted by tools/props/c07.py and must be explained. *)
